@@ -492,4 +492,343 @@ theorem mapM_loc_some {w : List (Block α β)} : ∀ (refs : List ID),
     refine ⟨l :: ls, ?_, by simp [hlen]⟩
     simp [List.mapM_cons, hl, hls]
 
+/-! ## Paths through a point -/
+
+/-- block `b` records path `q` against point `p` -/
+def Lists (b : Block α β) (p q : ID) : Prop :=
+  b.matchesAs 0 0 p.ns = true ∧ ∃ e, b.findFirst p.val = some e ∧ q ∈ e.paths
+
+theorem mem_addPaths {q : ID} : ∀ (ps acc : List ID), q ∈ addPaths acc ps ↔ q ∈ acc ∨ q ∈ ps
+  | [], acc => by simp [addPaths]
+  | p :: ps, acc => by
+    simp only [addPaths]
+    rw [mem_addPaths ps]
+    split
+    · rename_i hc
+      have hp : p ∈ acc := by simpa using hc
+      constructor
+      · rintro (h | h)
+        · exact Or.inl h
+        · exact Or.inr (List.mem_cons_of_mem _ h)
+      · rintro (h | h)
+        · exact Or.inl h
+        · rcases List.mem_cons.1 h with e | h'
+          · exact Or.inl (e ▸ hp)
+          · exact Or.inr h'
+    · simp only [List.mem_append, List.mem_cons, List.not_mem_nil, or_false]
+      constructor
+      · rintro ((h | h) | h)
+        · exact Or.inl h
+        · exact Or.inr (Or.inl h)
+        · exact Or.inr (Or.inr h)
+      · rintro (h | h | h)
+        · exact Or.inl (Or.inl h)
+        · exact Or.inl (Or.inr h)
+        · exact Or.inr h
+
+theorem nodup_addPaths : ∀ (ps acc : List ID), acc.Nodup → (addPaths acc ps).Nodup
+  | [], _, h => by simpa [addPaths] using h
+  | p :: ps, acc, h => by
+    simp only [addPaths]
+    split
+    · exact nodup_addPaths ps acc h
+    · rename_i hc
+      have hp : p ∉ acc := by simpa using hc
+      apply nodup_addPaths ps
+      rw [List.nodup_append]
+      refine ⟨h, by simp, ?_⟩
+      intro a ha b hb
+      have : b = p := by simpa using hb
+      subst this
+      exact fun e => hp (e ▸ ha)
+
+theorem mem_pathsByPoint {p q : ID} : ∀ (w : List (Block α β)) (acc : List ID),
+    q ∈ pathsByPoint w p acc ↔ q ∈ acc ∨ ∃ b ∈ w, Lists b p q
+  | [], acc => by simp [pathsByPoint]
+  | b :: rest, acc => by
+    simp only [pathsByPoint]
+    split
+    · rename_i hm
+      split
+      · rename_i e he
+        rw [mem_pathsByPoint rest, mem_addPaths]
+        constructor
+        · rintro ((h | h) | ⟨b', hb', hl⟩)
+          · exact Or.inl h
+          · exact Or.inr ⟨b, by simp, hm, e, he, h⟩
+          · exact Or.inr ⟨b', List.mem_cons_of_mem _ hb', hl⟩
+        · rintro (h | ⟨b', hb', hl⟩)
+          · exact Or.inl (Or.inl h)
+          · rcases List.mem_cons.1 hb' with rfl | hin
+            · obtain ⟨_, e', he', hq⟩ := hl
+              rw [he] at he'
+              simp only [Option.some.injEq] at he'
+              subst he'
+              exact Or.inl (Or.inr hq)
+            · exact Or.inr ⟨b', hin, hl⟩
+      · rename_i hnone
+        rw [mem_pathsByPoint rest]
+        constructor
+        · rintro (h | ⟨b', hb', hl⟩)
+          · exact Or.inl h
+          · exact Or.inr ⟨b', List.mem_cons_of_mem _ hb', hl⟩
+        · rintro (h | ⟨b', hb', hl⟩)
+          · exact Or.inl h
+          · rcases List.mem_cons.1 hb' with rfl | hin
+            · obtain ⟨_, e', he', _⟩ := hl
+              rw [hnone] at he'; simp at he'
+            · exact Or.inr ⟨b', hin, hl⟩
+    · rename_i hm
+      rw [mem_pathsByPoint rest]
+      constructor
+      · rintro (h | ⟨b', hb', hl⟩)
+        · exact Or.inl h
+        · exact Or.inr ⟨b', List.mem_cons_of_mem _ hb', hl⟩
+      · rintro (h | ⟨b', hb', hl⟩)
+        · exact Or.inl h
+        · rcases List.mem_cons.1 hb' with rfl | hin
+          · exact absurd hl.1 hm
+          · exact Or.inr ⟨b', hin, hl⟩
+
+theorem nodup_pathsByPoint {p : ID} : ∀ (w : List (Block α β)) (acc : List ID), acc.Nodup →
+    (pathsByPoint w p acc).Nodup
+  | [], _, h => by simpa [pathsByPoint] using h
+  | b :: rest, acc, h => by
+    simp only [pathsByPoint]
+    split
+    · split
+      · exact nodup_pathsByPoint rest _ (nodup_addPaths _ _ h)
+      · exact nodup_pathsByPoint rest _ h
+    · exact nodup_pathsByPoint rest _ h
+
+end B6.Lemmas.Merged
+
+namespace B6.Lemmas.Merged
+open B6.Model.Merged
+variable {α β : Type}
+
+/-! ## EachFeature -/
+
+theorem mem_of_mapM_some {A B : Type} {f : A → Option B} : ∀ {l : List A} {r : List B},
+    l.mapM f = some r → ∀ y, y ∈ r ↔ ∃ x ∈ l, f x = some y
+  | [], r, h, y => by
+    simp at h; subst h; simp
+  | x :: l, r, h, y => by
+    simp only [List.mapM_cons] at h
+    cases hx : f x with
+    | none => simp [hx] at h
+    | some y0 =>
+      cases hl : l.mapM f with
+      | none => simp [hx, hl] at h
+      | some r0 =>
+        simp [hx, hl] at h
+        subst h
+        have ih := mem_of_mapM_some hl y
+        simp only [List.mem_cons, ih]
+        constructor
+        · rintro (e | ⟨x', hx', hy⟩)
+          · exact ⟨x, Or.inl rfl, e ▸ hx⟩
+          · exact ⟨x', Or.inr hx', hy⟩
+        · rintro ⟨x', hx' | hx', hy⟩
+          · subst hx'; rw [hx] at hy; simp at hy; exact Or.inl hy.symm
+          · exact Or.inr ⟨x', hx', hy⟩
+
+/-- block `b` emits `id` in `EachFeature` -/
+def Emits (b : Block α β) (id : ID) : Prop :=
+  id.typ = b.typ ∧ b.ns? = some id.ns ∧ ∃ e ∈ b.entries, e.real = true ∧ e.val = id.val
+
+theorem mem_eachIDs {b : Block α β} {l : List ID} (h : b.eachIDs = some l) (id : ID) :
+    id ∈ l ↔ Emits b id := by
+  unfold Block.eachIDs at h
+  cases hns : b.ns? with
+  | none => simp [hns] at h
+  | some ns =>
+    simp [hns] at h
+    subst h
+    simp only [List.mem_map, List.mem_filter, Emits, hns, Option.some.injEq]
+    constructor
+    · rintro ⟨e, ⟨he, hr⟩, rfl⟩
+      exact ⟨rfl, rfl, e, he, hr, rfl⟩
+    · rintro ⟨ht, hn, e, he, hr, hv⟩
+      refine ⟨e, ⟨he, hr⟩, ?_⟩
+      cases id
+      simp at ht hn hv ⊢
+      exact ⟨ht.symm, hn, hv⟩
+
+theorem mem_eachType {w : List (Block α β)} {t : Nat} {r : List ID} (h : eachType w t = some r) (id : ID) :
+    id ∈ r ↔ ∃ b ∈ w, b.typ = t ∧ Emits b id := by
+  unfold eachType at h
+  cases hm : (w.filter (·.typ == t)).mapM Block.eachIDs with
+  | none => simp [hm] at h
+  | some rs =>
+    simp [hm] at h
+    subst h
+    simp only [List.mem_flatten]
+    constructor
+    · rintro ⟨l, hl, hid⟩
+      obtain ⟨b, hb, hbl⟩ := (mem_of_mapM_some hm l).1 hl
+      have hb' := List.mem_filter.1 hb
+      exact ⟨b, hb'.1, by simpa using hb'.2, (mem_eachIDs hbl id).1 hid⟩
+    · rintro ⟨b, hb, ht, he⟩
+      have hbf : b ∈ w.filter (·.typ == t) := List.mem_filter.2 ⟨hb, by simpa using ht⟩
+      -- the block's own list exists because the whole mapM succeeded
+      cases hbl : b.eachIDs with
+      | none =>
+        exfalso
+        have : ∀ {l : List (Block α β)} {r}, l.mapM Block.eachIDs = some r → b ∈ l → False := by
+          intro l
+          induction l with
+          | nil => intro r _ hb; simp at hb
+          | cons x l ih =>
+            intro r hr hb
+            simp only [List.mapM_cons] at hr
+            cases hx : x.eachIDs with
+            | none => simp [hx] at hr
+            | some y0 =>
+              cases hl : l.mapM Block.eachIDs with
+              | none => simp [hx, hl] at hr
+              | some r0 =>
+                rcases List.mem_cons.1 hb with e | hb'
+                · subst e; rw [hbl] at hx; simp at hx
+                · exact ih hl hb'
+        exact this hm hbf
+      | some l =>
+        exact ⟨l, (mem_of_mapM_some hm l).2 ⟨b, hbf, hbl⟩, (mem_eachIDs hbl id).2 he⟩
+
+/-- `EachFeature` over the merged blocks lists exactly the ids some block emits (blocks of the four
+feature types), whatever file they came from. -/
+theorem mem_each {w : List (Block α β)} {ids : List ID} (h : each w = some ids) (id : ID) :
+    id ∈ ids ↔ ∃ b ∈ w, b.typ < numTypes ∧ Emits b id := by
+  unfold each at h
+  cases hm : (List.range numTypes).mapM (eachType w) with
+  | none => simp [hm] at h
+  | some rs =>
+    simp [hm] at h
+    subst h
+    simp only [List.mem_flatten]
+    constructor
+    · rintro ⟨l, hl, hid⟩
+      obtain ⟨t, ht, htl⟩ := (mem_of_mapM_some hm l).1 hl
+      obtain ⟨b, hb, hbt, he⟩ := (mem_eachType htl id).1 hid
+      exact ⟨b, hb, by rw [hbt]; exact List.mem_range.1 ht, he⟩
+    · rintro ⟨b, hb, hlt, he⟩
+      have hmem : b.typ ∈ List.range numTypes := List.mem_range.2 hlt
+      cases htl : eachType w b.typ with
+      | none =>
+        exfalso
+        have : ∀ {l : List Nat} {r}, l.mapM (eachType w) = some r → b.typ ∈ l → False := by
+          intro l
+          induction l with
+          | nil => intro r _ hb; simp at hb
+          | cons x l ih =>
+            intro r hr hb
+            simp only [List.mapM_cons] at hr
+            cases hx : eachType w x with
+            | none => simp [hx] at hr
+            | some y0 =>
+              cases hl : l.mapM (eachType w) with
+              | none => simp [hx, hl] at hr
+              | some r0 =>
+                rcases List.mem_cons.1 hb with e | hb'
+                · rw [← e, htl] at hx; simp at hx
+                · exact ih hl hb'
+        exact this hm hmem
+      | some l =>
+        exact ⟨l, (mem_of_mapM_some hm l).2 ⟨b.typ, hmem, htl⟩, (mem_eachType htl id).2 ⟨b, hb, rfl, he⟩⟩
+
+/-! ### `EachFeature` and the lookup agree -/
+
+theorem encodeFrom_none_of_not_mem {ns : Nat} : ∀ (t : List Nat) (i : Nat), ns ∉ t → encodeFrom i t ns = none
+  | [], _, _ => rfl
+  | n :: rest, i, h => by
+    simp only [List.mem_cons, not_or] at h
+    simp only [encodeFrom, encodeFrom_none_of_not_mem rest (i + 1) h.2]
+    rw [if_neg (fun e => h.1 e.symm)]
+
+/-- in a duplicate-free table `MaybeEncode (Decode e) = e` -/
+theorem encodeFrom_of_getElem {ns : Nat} : ∀ (t : List Nat) (i e : Nat), t.Nodup → t[e]? = some ns →
+    encodeFrom i t ns = some (i + e)
+  | [], _, _, _, h => by simp at h
+  | n :: rest, i, 0, hnd, h => by
+    simp only [List.getElem?_cons_zero, Option.some.injEq] at h
+    subst h
+    rw [List.nodup_cons] at hnd
+    simp [encodeFrom, encodeFrom_none_of_not_mem rest (i + 1) hnd.1]
+  | n :: rest, i, e + 1, hnd, h => by
+    simp only [List.getElem?_cons_succ] at h
+    rw [List.nodup_cons] at hnd
+    have := encodeFrom_of_getElem rest (i + 1) e hnd.2 h
+    simp only [encodeFrom, this]
+    congr 1; omega
+
+/-- `Decode (MaybeEncode ns) = ns` -/
+theorem getElem_of_encodeFrom {ns : Nat} : ∀ (t : List Nat) (i j : Nat), encodeFrom i t ns = some j →
+    i ≤ j ∧ t[j - i]? = some ns
+  | [], _, _, h => by simp [encodeFrom] at h
+  | n :: rest, i, j, h => by
+    simp only [encodeFrom] at h
+    split at h
+    · rename_i j' hj'
+      simp only [Option.some.injEq] at h; subst h
+      obtain ⟨hle, hget⟩ := getElem_of_encodeFrom rest (i + 1) j' hj'
+      refine ⟨by omega, ?_⟩
+      have : j' - i = (j' - (i + 1)) + 1 := by omega
+      rw [this, List.getElem?_cons_succ]; exact hget
+    · split at h
+      · rename_i hn
+        simp only [Option.some.injEq] at h; subst h
+        simp [hn]
+      · simp at h
+
+theorem find?_of_unique {v : Nat} : ∀ (es : List (Entry α β)) (e : Entry α β), (es.map (·.val)).Nodup →
+    e ∈ es → e.val = v → es.find? (·.val == v) = some e
+  | [], _, _, h, _ => by simp at h
+  | x :: rest, e, hnd, he, hv => by
+    simp only [List.map_cons, List.nodup_cons] at hnd
+    rcases List.mem_cons.1 he with rfl | hin
+    · simp [hv]
+    · have hx : x.val ≠ v := by
+        intro hxv
+        exact hnd.1 (List.mem_map.2 ⟨e, hin, by rw [hv, hxv]⟩)
+      rw [List.find?_cons]
+      have : (x.val == v) = false := by simpa using hx
+      rw [this]
+      exact find?_of_unique rest e hnd.2 hin hv
+
+/-- well-formed block: duplicate-free namespace table, one entry per value (what `FillFromNamespaces`
+and `Uint64Map.EachItem` guarantee) -/
+def WFBlock (b : Block α β) : Prop := b.table.Nodup ∧ (b.entries.map (·.val)).Nodup
+
+theorem holds_of_emits {b : Block α β} {id : ID} (hwf : WFBlock b) (h : Emits b id) :
+    ∃ c, Holds b id c := by
+  obtain ⟨ht, hns, e, he, hr, hv⟩ := h
+  unfold Block.ns? at hns
+  cases hc : b.nsenc[b.typ]? with
+  | none => simp [hc] at hns
+  | some code =>
+    simp only [hc, Option.bind_some, decode] at hns
+    have henc := encodeFrom_of_getElem b.table 0 code hwf.1 hns
+    refine ⟨e.content, ?_, e, ?_, hr, rfl⟩
+    · simp [Block.matchesID, Block.matchesAs, ht, hc, maybeEncode, henc]
+    · exact find?_of_unique b.entries e hwf.2 he hv
+
+theorem emits_of_holds {b : Block α β} {id : ID} {c : α} (h : Holds b id c) : Emits b id := by
+  obtain ⟨hm, e, he, hr, _⟩ := h
+  simp only [Block.matchesID, Block.matchesAs, Bool.and_eq_true, beq_iff_eq] at hm
+  obtain ⟨ht, hm⟩ := hm
+  cases hc : b.nsenc[id.typ]? with
+  | none => simp [hc] at hm
+  | some code =>
+    cases henc : maybeEncode b.table id.ns with
+    | none => simp [hc, henc] at hm
+    | some code' =>
+      simp only [hc, henc, beq_iff_eq] at hm
+      subst hm
+      obtain ⟨_, hget⟩ := getElem_of_encodeFrom b.table 0 code henc
+      refine ⟨ht.symm, ?_, e, List.mem_of_find?_eq_some he, hr, ?_⟩
+      · simp only [Block.ns?, ht, hc, Option.bind_some, decode]
+        simpa using hget
+      · have := List.find?_some he
+        simpa using this
+
 end B6.Lemmas.Merged
